@@ -21,6 +21,7 @@ import (
 	"time"
 
 	"github.com/diskfs/go-diskfs/internal/vp"
+	"github.com/djherbis/times"
 	"golang.org/x/sys/unix"
 )
 
@@ -113,7 +114,7 @@ func MkdirAll(p string, perm fs.FileMode) error {
 	for _, s := range split(p) {
 		c := n.child(s)
 		if c == nil {
-			c = &Node{Name: s, Mode: fs.ModeDir | perm, Mtime: time.Unix(0, 0)}
+			c = &Node{Name: s, Mode: fs.ModeDir | perm, Mtime: time.Unix(0, 0).UTC()}
 			n.add(c)
 		} else if c.Mode&fs.ModeDir == 0 {
 			return pathErr("mkdir", p, syscall.ENOTDIR)
@@ -140,7 +141,7 @@ func WriteFile(p string, data []byte, perm fs.FileMode) error {
 		c.Data = data
 		return nil
 	}
-	dir.add(&Node{Name: name, Mode: perm, Data: data, Mtime: time.Unix(0, 0)})
+	dir.add(&Node{Name: name, Mode: perm, Data: data, Mtime: time.Unix(0, 0).UTC()})
 	return nil
 }
 
@@ -156,7 +157,7 @@ func Symlink(target, p string) error {
 	if dir.child(path.Base(p)) != nil {
 		return pathErr("symlink", p, fs.ErrExist)
 	}
-	dir.add(&Node{Name: path.Base(p), Mode: fs.ModeSymlink | 0o777, Target: target, Mtime: time.Unix(0, 0)})
+	dir.add(&Node{Name: path.Base(p), Mode: fs.ModeSymlink | 0o777, Target: target, Mtime: time.Unix(0, 0).UTC()})
 	return nil
 }
 
@@ -197,7 +198,7 @@ func Chtimes(p string, sec int64) error {
 	if n == nil {
 		return pathErr("chtimes", p, fs.ErrNotExist)
 	}
-	n.Mtime = time.Unix(sec, 0)
+	n.Mtime = time.Unix(sec, 0).UTC()
 	return nil
 }
 
@@ -230,7 +231,9 @@ func (i info) Sys() any {
 			}
 		}
 	}
-	return &syscall.Stat_t{Nlink: nlink, Uid: i.n.Uid, Gid: i.n.Gid, Rdev: i.n.Rdev, Size: i.Size()}
+	sec := i.n.Mtime.Unix()
+	ts := syscall.Timespec{Sec: sec}
+	return &syscall.Stat_t{Nlink: nlink, Uid: i.n.Uid, Gid: i.n.Gid, Rdev: i.n.Rdev, Size: i.Size(), Atim: ts, Mtim: ts, Ctim: ts}
 }
 
 // ---- redirected package functions (symbolic mode only) -----------------------------------------
@@ -708,4 +711,23 @@ func unixStat(p string, st *unix.Stat_t, follow bool) error {
 	st.Size = s.Size
 	st.Mode = uint32(n.Mode.Perm())
 	return nil
+}
+
+// TimesStat / TimesLstat stand in for github.com/djherbis/times.Stat / Lstat (access, change and
+// modification time all equal the node's modification time, as after vphost.Chtimes natively...
+// natively the change time is the time of the last inode change, which harnesses must not assert on).
+func TimesStat(p string) (times.Timespec, error) {
+	fi, err := Stat(p)
+	if err != nil {
+		return nil, err
+	}
+	return times.Get(fi), nil
+}
+
+func TimesLstat(p string) (times.Timespec, error) {
+	fi, err := Lstat(p)
+	if err != nil {
+		return nil, err
+	}
+	return times.Get(fi), nil
 }
